@@ -17,12 +17,14 @@ import pfimport  # noqa: F401
 from pfimport import exc_enum
 
 import c10_nestmap as NM
+import c10_picker as PK
 import c10_runner as R
+import c10_wrapsrc as WS
 import mapgen
 import pipegen
 
 PID = "C10"
-PROPS = ["PfModel.Props.C10", "PfModel.Props.C10Axis", "PfModel.Props.C10Total", "PfModel.Props.C10Map", "PfModel.Props.C10Ops", "PfModel.Props.C10Ren", "PfModel.Props.C10AxisPrior", "PfModel.Props.C10NestMap", "PfModel.Props.C10NestMapRun"]
+PROPS = ["PfModel.Props.C10", "PfModel.Props.C10Axis", "PfModel.Props.C10Total", "PfModel.Props.C10Map", "PfModel.Props.C10Ops", "PfModel.Props.C10Ren", "PfModel.Props.C10AxisPrior", "PfModel.Props.C10NestMap", "PfModel.Props.C10NestMapRun", "PfModel.Props.C10NestWrap"]
 DRIVER = "C10"
 RULE = ("an environment with a pipegen DAG (1-5 term-building functions: tuple outputs, shared parameters, defaults, bound values, renames) or a "
         "well-formed mapgen MapSpec pipeline (1-3 functions), optionally a second pipeline to join; a history of 1-3 rewrites drawn by weight "
@@ -36,6 +38,12 @@ RULE = ("an environment with a pipegen DAG (1-5 term-building functions: tuple o
         "every 5th case is a rename history on functions with bound values (update_renames with update_from in {current, original} and overwrite in {False, True}, "
         "0-3 keys, new names fresh / the original / a name the same call frees (hand-overs, cycles a->b, b->a), on a copy, in place and on one function; "
         "update_bound and update_scope in between), observed and compared with the model after every step; "
+        "ext5: tuple-output functions get a CUSTOM output_picker with p = 0.6 (dict result / reversed tuple / object with attributes; 8 % of the single-output "
+        "functions the 1-tuple name ('o',) with a dict result) in every stream, functions added / replaced in place too; nest proposes EXACTLY the tuple of a "
+        "multi-output inner leaf (18 %), 1-tuple names, and NestedPipeFunc(...) built by hand + Pipeline (12 %); every 10th case is a split_disconnected case: 2-3 groups "
+        "of functions, two of them linked only through a shared root argument whose default is declared on one consumer / both / none; for every call pipeline "
+        "with a NestedPipeFunc the way out of the nest is replayed step by step (call_full_output dictionary, _NestedFuncWrapper return value, picker) and "
+        "compared with PF.Rw.Wrap on the same dictionary (driver entry nest_wrap); the source shape of those three pieces is compared with the shape the model mirrors; "
         "a separate malformed stream (unused rename keys, capturing renames, unknown outputs, dropped "
         "consumed outputs, drop/replace of an unknown output, add of a duplicate output) only demands refusal-or-consistency and an unchanged original; non-trivial = at least one rewrite other than "
         "copy/pickle was performed on a pipeline with >= 2 functions; distinct by (environment, ops)")
@@ -46,7 +54,10 @@ ASSUMPTIONS = ["inspect.signature, networkx (connected components, predecessor o
                "the order of the input arrays inside a MapSpec string is not compared",
                "the renaming an update_renames(update_from, overwrite) call performed is read off position by position from `parameters` / `output_name` before and after; when it is not ONE injective renaming of the pipeline the result is compared with the model only",
                "an in-place operation that raises is not required to leave its object unchanged (counted as failed-in-place:*)",
-               "only root arguments are supplied as keywords (the rewritten pipeline is not required to accept former intermediates)"]
+               "only root arguments are supplied as keywords (the rewritten pipeline is not required to accept former intermediates)",
+               "a custom output_picker knows the outputs by the names given in output_name (the ORIGINAL names) - what pipefunc hands it after fix DF-C10-picker-renamed-output; "
+               "the values it picks are the same terms the default picker yields, so the model (Val.pick raw originalName) does not distinguish picker kinds",
+               "which of several applicable reasons a refused nest of >= 3 MapSpec functions reports depends on the iteration order of a Python set: not compared"]
 
 
 # ---------------------------------------------------------------------------------------------- generation
@@ -82,11 +93,15 @@ def shifted(desc, taken_outputs, rng):
 def gen_env(rng, kind):
     if kind == "map":
         desc = mapgen.gen_case(rng, max_funcs=3, kinds=["elem", "elem", "outer", "partial", "full", "internal", "gen", "scalar"])
+        PK.assign(rng, desc["funcs"])
         return [["p0", {"kind": "map", "desc": desc}]]
     desc = pipegen.gen_dag(rng, max_funcs=rng.choice([2, 3, 4, 5]), p_tuple=0.3, p_bound=0.2)
+    PK.assign(rng, desc["funcs"])      # ext5: custom output_picker styles (dict / reversed tuple / object) on tuple-output functions
     env = [["p0", {"kind": "call", "desc": desc, "explicit_defaults": rng.random() < 0.5}]]
     if rng.random() < 0.4:
-        d2 = shifted(pipegen.gen_dag(rng, max_funcs=rng.choice([1, 2, 3])), pipegen.all_outputs(desc), rng)
+        d2 = pipegen.gen_dag(rng, max_funcs=rng.choice([1, 2, 3]))
+        PK.assign(rng, d2["funcs"])
+        d2 = shifted(d2, pipegen.all_outputs(desc), rng)
         r = rng.random()
         if r < 0.55:
             share_defaults(desc, d2, rng, clash=r < 0.3)
@@ -208,6 +223,18 @@ def propose(rng, runner, k, allow_mutation):
         elif r < 0.32 and len(inner) > 1:
             op["out"] = sorted(rng.sample(inner, rng.randint(1, len(inner) - 1)))
             op["malformed"] = not (consumed <= set(op["out"]))
+        elif r < 0.5:
+            # ext5: EXACTLY the tuple of a multi-output leaf of the selection, in its own order (then the inner pipeline's result
+            # dictionary has the nest's output_name as a key: the raw return value of the leaf)
+            inner_leaves = [g for g in group if isinstance(g.output_name, tuple)
+                            and not any(a in g.output_name and a not in h.bound for h in group if h is not g for a in h.parameters)]
+            if inner_leaves:
+                op["out"] = list(inner_leaves[0].output_name)
+                op["malformed"] = not (consumed <= set(op["out"]))
+        if rng.random() < 0.12:
+            op["via"] = "ctor"               # ext5: NestedPipeFunc(functions, output_name) built by hand, then a new Pipeline
+        if op["out"] is not None and len(op["out"]) == 1 and rng.random() < 0.4:
+            op["tuple1"] = True              # ext5: output_name=("o",) - a 1-tuple is a tuple name (the wrapper packs, the picker unpacks)
         return op
     if kind == "mutate":
         if rng.random() < 0.3:
@@ -294,8 +321,11 @@ def gen_rename_case(rng, k_case):
     cycles in one call; new objects and in-place calls; everything is observed after every step."""
     desc = pipegen.gen_dag(rng, max_funcs=rng.choice([1, 2, 2, 3]), p_tuple=0.25, p_bound=0.55, p_default=0.3,
                            p_rename=rng.choice([0.0, 0.1, 0.3]), p_nullary=0.0)
+    PK.assign(rng, desc["funcs"])      # ext5: an output of a function with a custom output_picker renamed, renamed again, reset, scoped
     env = [["p0", {"kind": "call", "desc": desc, "explicit_defaults": rng.random() < 0.5}]]
     runner = R.Runner(env)
+    if runner.halted:          # (ext5) building the generated pipeline raised: reported by the runner, nothing to rewrite
+        return {"env": env, "ops": []}, runner
     ops = []
     for k in range(rng.choice([2, 3, 3, 4])):
         names = list(runner.env)
@@ -368,6 +398,8 @@ def live_func_desc(ent, f, name):
           "bound": sorted([[a, R.terms.enc(v)] for a, v in f.bound.items()], key=lambda kv: kv[0])}
     dn = {x[0] for x in fd["defaults"]}
     fd["params"] = [q for q in params if q[0] not in dn] + [q for q in params if q[0] in dn]
+    if len(outs) > 1 and PK.style_of(f) in PK.STYLES:
+        fd["picker"] = PK.style_of(f)          # the replacement returns its outputs the way the replaced function does
     if ent.kind == "map":
         ms = f.mapspec
         fd["mapspec"] = None if ms is None else {"inputs": [[a.name, list(a.axes)] for a in ms.inputs], "outputs": [[a.name, list(a.axes)] for a in ms.outputs]}
@@ -423,6 +455,7 @@ def propose_mutation(rng, runner, target, uid, extra=None):
                     fd["defaults"].append([f"n{uid}", {"s": f"dflt:n{uid}"}])
             if ent.kind == "map":
                 fd.update(mapspec=None, mapspec_str=None, ret=None, internal=None, autogen=False)
+            PK.assign(rng, [fd])
             op = {"op": kind, "target": target, "func": fd}
         elif kind == "mut_replace":
             f = rng.choice(fs)
@@ -472,6 +505,8 @@ def gen_nestmap_case(rng, k_case):
     desc, info = NM.gen_env(rng)
     env = [["p0", {"kind": "map", "desc": desc}]]
     runner = R.Runner(env)
+    if runner.halted:          # (ext5) building the generated pipeline raised: reported by the runner, nothing to rewrite
+        return {"env": env, "ops": []}, runner
     runner.counts.append(f"nestmap:shape:{info['shape']}")
     runner.counts.append(f"nestmap:perturbation:{info['perturb']}")
     ops = [NM.nest_op(rng, info, "p0", "p1")]
@@ -496,6 +531,61 @@ def gen_nestmap_case(rng, k_case):
     return {"env": env, "ops": ops}, runner
 
 
+def gen_split_case(rng, k_case):
+    """ext5 (seeded change C10-s3-B: the catch depended on the luck of the DAG generator): pipelines made of 2-3 groups of functions, two of
+    which are LINKED ONLY THROUGH A SHARED ROOT ARGUMENT (no function feeds the other) - with a default for that argument declared on one of
+    its consumers only (`Pipeline.defaults` serves all of them), on both, or on none - plus, mostly, a really disconnected group; then
+    split_disconnected for an output of each kind of group, and 0-2 further ops.  Every piece is called with all roots and with the
+    defaulted roots left out (`observe`), which is where a piece that lost a default shows."""
+    groups = rng.choice([2, 3, 3])
+    funcs = []
+    for g in range(groups):
+        prev = None
+        for i in range(rng.choice([1, 1, 2])):
+            params = [f"r{g}{i}"] + ([prev] if prev else []) + ([f"r{g}x"] if rng.random() < 0.3 else [])
+            outs = [f"o{g}{i}"] if rng.random() < 0.75 else [f"o{g}{i}a", f"o{g}{i}b"]
+            dfl = [[f"r{g}{i}", pipegen.sval(f"dflt:r{g}{i}")]] if rng.random() < 0.25 else []
+            f = F(f"f{g}{i}", [q for q in params if q not in [d[0] for d in dfl]] + [d[0] for d in dfl], outs, defaults=dfl)
+            funcs.append(f)
+            prev = outs[0]
+    shape = "unlinked"
+    if rng.random() < 0.8:
+        a, b = rng.sample(range(groups), 2)
+        fa = rng.choice([f for f in funcs if f["name"].startswith(f"f{a}")])
+        fb = rng.choice([f for f in funcs if f["name"].startswith(f"f{b}")])
+        shape = rng.choice(["default-on-one", "default-on-one", "default-on-both", "no-default"])
+        for f, with_default in ((fa, shape != "no-default"), (fb, shape == "default-on-both")):
+            if with_default:
+                f["params"].append(["s0", "s0"])
+                f["defaults"].append(["s0", pipegen.sval("dflt:s0")])
+            else:
+                dn = {d[0] for d in f["defaults"]}
+                f["params"] = [q for q in f["params"] if q[0] not in dn] + [["s0", "s0"]] + [q for q in f["params"] if q[0] in dn]
+    pipegen.assign_consts(rng, funcs)
+    PK.assign(rng, funcs)
+    env = [["p0", {"kind": "call", "desc": {"funcs": funcs}, "explicit_defaults": rng.random() < 0.5}]]
+    runner = R.Runner(env)
+    if runner.halted:          # (ext5) building the generated pipeline raised: reported by the runner, nothing to rewrite
+        return {"env": env, "ops": []}, runner
+    runner.counts.append(f"splitgen:{shape}:{groups}-groups")
+    ops = []
+    firsts = [f["outputs"][0] for f in funcs]
+    for j, o in enumerate(rng.sample(firsts, min(len(firsts), rng.choice([1, 2, 2])))):
+        ops.append({"op": "split", "src": "p0", "dst": f"p{j + 1}", "out": o})
+        runner.apply(ops[-1])
+    for k in range(rng.choice([0, 1, 2])):
+        if runner.halted:
+            break
+        try:
+            op = propose(rng, runner, k + 3, allow_mutation=True)
+        except Exception as e:  # noqa: BLE001
+            runner.inconsistent(e, ops)
+            break
+        ops.append(op)
+        runner.apply(op)
+    return {"env": env, "ops": ops}, runner
+
+
 P_MUTATE_AFTER = 0.5
 SEEN: dict = {}      # (rewrite kind, mutation kind, new|old) -> proposals in this run (reset by `run`; steers the choice only)
 
@@ -504,6 +594,8 @@ def gen_case(rng, k_case):
     kind = "map" if k_case % 4 == 3 else "call"
     env = gen_env(rng, kind)
     runner = R.Runner(env)
+    if runner.halted:          # (ext5) building the generated pipeline raised: reported by the runner, nothing to rewrite
+        return {"env": env, "ops": []}, runner
     ops = []
     mutated = 0
     for k in range(rng.choice([1, 2, 2, 3, 3, 4])):
@@ -548,9 +640,9 @@ def rerun(case):
 
 
 # ---------------------------------------------------------------------------------------------- judging
-def judge(ctx, case, runner, resp):
+def judge(ctx, case, runner, resp, wresps=()):
     performed = [p["op"]["op"] for p in runner.plan if p["kind"] == "op" and "ok" in p["impl"]]
-    model_problems = list(R.judge_model(runner, resp["r"]["steps"]))
+    model_problems = list(R.judge_model(runner, resp["r"]["steps"])) + list(R.judge_wraps(runner, wresps))
     for c in runner.counts:
         ctx.count(c)
     ctx.count(f"kind:{case['env'][0][1]['kind']}")
@@ -566,6 +658,11 @@ def judge(ctx, case, runner, resp):
 def F(name, params, outputs, defaults=(), bound=()):
     return {"name": name, "params": [list(p) if isinstance(p, (list, tuple)) else [p, p] for p in params], "outputs": list(outputs),
             "defaults": [list(d) for d in defaults], "bound": [list(b) for b in bound]}
+
+
+def FP(name, params, outputs, picker, **kw):
+    """`F` with a custom output_picker style (harness/c10_picker.py)"""
+    return dict(F(name, params, outputs, **kw), picker=picker)
 
 
 def call_env(*funcs):
@@ -608,7 +705,43 @@ def CHAIN(extra_f0=(), extra_f1=(), **kw):
             MF("f2", ["y1"], ["t2"])]
 
 
+def PICK3(style, mid=()):
+    """f(a, b) -> x;  g(x, a) -> (c, d) with a custom output_picker;  h(c, d) -> e   (the demo of seeded change C10-s3-A)"""
+    return call_env(F("f", ["a", "b"], ["x"]), FP("g", ["x", "a"], ["c", "d"], style), F("h", ["c", "d", *mid], ["e"]))
+
+
 CORPUS: list = [
+    # seeded change C10-s3-A: a nest that exports EXACTLY the tuple of its multi-output leaf, the leaf having a custom output_picker
+    # (dict result / reversed tuple / object): nest_funcs with the leaf's tuple, in another order, plus the intermediate (control),
+    # NestedPipeFunc built by hand, simplified_pipeline choosing the tuple by itself; then renamed / scoped / pickled
+    {"env": PICK3("dict"),
+     "ops": [{"op": "nest", "src": "p0", "dst": "p1", "sel": ["x", "c"], "out": ["c", "d"]},
+             {"op": "nest", "src": "p0", "dst": "p2", "sel": ["x", "c"], "out": ["d", "c"]},
+             {"op": "nest", "src": "p0", "dst": "p3", "sel": ["x", "c"], "out": ["c", "d", "x"]},
+             {"op": "nest", "src": "p0", "dst": "p4", "sel": ["x", "c"], "out": ["c", "d"], "via": "ctor"},
+             {"op": "simplify", "src": "p0", "dst": "p5", "out": "e", "conservative": False},
+             {"op": "pickle", "src": "p1", "dst": "p6"}]},
+    {"env": PICK3("rev"),
+     "ops": [{"op": "nest", "src": "p0", "dst": "p1", "sel": ["x", "c"], "out": ["c", "d"]},
+             {"op": "nest", "src": "p0", "dst": "p2", "sel": ["x", "c"], "out": None},
+             {"op": "simplify", "src": "p0", "dst": "p3", "out": "e", "conservative": False},
+             {"op": "split", "src": "p0", "dst": "p9", "out": "e"},
+             {"op": "copy", "src": "p1", "dst": "p4"}]},
+    {"env": PICK3("obj"),
+     "ops": [{"op": "nest", "src": "p0", "dst": "p1", "sel": ["x", "c"], "out": ["c", "d"]},
+             {"op": "nest", "src": "p1", "dst": "p2", "sel": ["c", "e"], "out": None},
+             {"op": "add_axis", "src": "p0", "dst": "p3", "param": "a", "axis": "w", "K": 2},
+             {"op": "nest", "src": "p0", "dst": "p4", "sel": ["c", "e"], "out": ["e"], "tuple1": True}]},
+    # seeded change C10-s3-B: f0 and f1 are linked only through the root `s0`, whose default is declared on f0 alone; f2 is really disconnected
+    {"env": call_env(F("f0", ["r0", "s0"], ["o0"], defaults=[["s0", {"s": "dflt:s0"}]]), F("f1", ["s0", "r1"], ["o1"]), F("f2", ["r2"], ["o2"])),
+     "ops": [{"op": "split", "src": "p0", "dst": "p1", "out": "o1"}, {"op": "split", "src": "p0", "dst": "p2", "out": "o2"}]},
+    # DF-C10-picker-renamed-output (ext5): a custom output_picker was handed the CURRENT (renamed / scoped) output name
+    {"env": PICK3("dict"),
+     "ops": [{"op": "rename", "src": "p0", "dst": "p1", "map": [["c", "c_R"]]},
+             {"op": "scope", "src": "p0", "dst": "p2", "scope": "S"},
+             {"op": "scope_sel", "src": "p0", "dst": "p3", "scope": "T", "inputs": None, "outputs": ["d"], "exclude": None},
+             {"op": "nest", "src": "p2", "dst": "p4", "sel": ["S.x", "S.c"], "out": ["S.c", "S.d"]},
+             {"op": "rename_x", "src": "p1", "dst": "p5", "map": [], "from_original": False, "overwrite": True}]},
     # DF-C10-nested-map (fixed in /repo by e747271): `Pipeline.map` on ANY pipeline containing a NestedPipeFunc raised AttributeError
     # ('NestedPipeFunc' object has no attribute 'internal_shape'): an element-wise chain nested and mapped; renamed, scoped, pickled afterwards
     {"env": map_env(CHAIN(), [["x0", XARR("x0", 3)]], {"x0": "list"}),
@@ -758,18 +891,32 @@ def run(ctx):
         ctx.count("corpus")
     for k in range(ctx.n(640, 12000)):
         try:
-            case, runner = gen_rename_case(rng, k) if k % 5 == 4 else gen_nestmap_case(rng, k) if k % 5 == 2 else gen_case(rng, k)
+            case, runner = (gen_rename_case(rng, k) if k % 5 == 4 else gen_nestmap_case(rng, k) if k % 5 == 2 else
+                            gen_split_case(rng, k) if k % 10 == 6 else gen_case(rng, k))
         except Exception as e:  # noqa: BLE001   the generator builds valid pipelines only
             ctx.count(f"generator-exc:{exc_enum(e)}")
             raise
         done.append((case, runner))
     reqs = [{"m": "rewrite", "a": {"env": r.env_req, "history": r.history}} for _, r in done]
-    resps = ctx.lean(reqs)
+    wreqs = [w[0] for _, r in done for w in r.wraps]       # ext5: `nest_wrap` (PF.Rw.Wrap) on the dictionaries the real inner pipelines returned
+    resps = ctx.lean(reqs + wreqs)
+    k = len(reqs)
     for (case, runner), resp in zip(done, resps):
-        judge(ctx, case, runner, resp)
+        n = len(runner.wraps)
+        judge(ctx, case, runner, resp, resps[k:k + n])
+        k += n
+    for piece, want, got in WS.differences():
+        # the code no longer has the shape `PF.Rw.Wrap` mirrors: not a failing input by itself (the behavioural checks above find one; reported last)
+        ctx.count(f"wrap-source:changed:{piece}")
+        ctx.violation({"env": [], "ops": [], "source": piece}, f"the source of `{piece}` no longer has the shape the model PF.Rw.Wrap mirrors",
+                      found_input=False, item="correspondence:nest-wrapper-source", impl=got, model=want)
 
 
 def replay(ctx, case):
+    if case.get("source"):
+        for piece, want, got in WS.differences():
+            print(f"source of `{piece}`:\n  found:    {got}\n  mirrored: {want}")
+        return
     runner = rerun(case)
     resp = ctx.lean([{"m": "rewrite", "a": {"env": runner.env_req, "history": runner.history}}])[0]
     for pl, st in zip(runner.plan, resp["r"]["steps"]):
@@ -780,3 +927,11 @@ def replay(ctx, case):
         print("PROPERTY (implementation alone):", pr[0], "\n   got:", pr[3], "\n   expected:", pr[4])
     for pr in R.judge_model(runner, resp["r"]["steps"]):
         print("MODEL:", pr[0])
+    if runner.wraps:
+        wresps = ctx.lean([w[0] for w in runner.wraps])
+        for (req, obs, name, fname), wr in zip(runner.wraps, wresps):
+            print(f"nest_wrap `{fname}` in `{name}`: dictionary keys {obs['rd_keys']}")
+            print("  implementation:", obs["ret"], obs["outs"])
+            print("  model:", wr["r"])
+        for pr in R.judge_wraps(runner, wresps):
+            print("MODEL:", pr[0])
